@@ -37,15 +37,15 @@ Proof. vm_compute. reflexivity. Qed.
 (* ResultNodes of the best path: ア and イ are OOV katakana (class bit KATAKANA), 東京都 is word 7 of the dictionary *)
 Definition KAT : N := Rewrite.RF.KATAKANA.
 Definition w_pr : list Rewrite.node :=
-  [Rewrite.mkN 0 1 0 3 [12450%N] [] [] [] 5 true KAT KAT; Rewrite.mkN 1 2 3 6 [12452%N] [] [] [] 5 true KAT KAT;
-   Rewrite.mkN 2 5 6 15 [26481; 20140; 37117]%N [] [] [] 1 false 0 0].
+  [Rewrite.mkN 0 1 0 3 [12450%N] [] [] [] 0 5 true KAT KAT; Rewrite.mkN 1 2 3 6 [12452%N] [] [] [] 0 5 true KAT KAT;
+   Rewrite.mkN 2 5 6 15 [26481; 20140; 37117]%N [] [] [] 0 1 false 0 0].
 Example w_rnodes : Forall2 (rnode_of (cur w_s)) w_p w_pr.
 Proof. repeat constructor. Qed.
 
 Definition w_pls : list Rewrite.plugin := [Rewrite.PNumeric true 3; Rewrite.PKatakana 3 9].
 Definition w_q : list Rewrite.node :=
-  [Rewrite.mkN 0 2 0 6 [12450; 12452]%N [12450; 12452]%N [12450; 12452]%N [] 9 true KAT KAT;
-   Rewrite.mkN 2 5 6 15 [26481; 20140; 37117]%N [] [] [] 1 false 0 0].
+  [Rewrite.mkN 0 2 0 6 [12450; 12452]%N [12450; 12452]%N [12450; 12452]%N [] 0 9 true KAT KAT;
+   Rewrite.mkN 2 5 6 15 [26481; 20140; 37117]%N [] [] [] 0 1 false 0 0].
 Example w_rewrite : Rewrite.run_plugins w_pls w_pr = Some (Rewrite.Ok w_q).
 Proof. vm_compute. reflexivity. Qed.
 
